@@ -324,7 +324,7 @@ func c13Job(raw json.RawMessage) (any, error) {
 	table.Handle("/{p}", "hp", nil, "GET")
 	trail := func(n int) string { return strings.TrimSuffix(strings.Repeat("A,", n), ",") }
 	for _, host := range []string{"a.com", "b.com", "s.a.com", "A.COM:80"} {
-		for _, path := range []string{"/x", "/v1/x", "/v2/x", "/v1", "/v1/v1/x", "/zz"} {
+		for _, path := range []string{"/x", "/v1/x", "/v2/x", "/v1", "/v1/v1/x", "/zz", "zz" /* no route of any router: a 404 inside the winning router */} {
 			for _, acc := range []string{"", "application/json;version=1", "application/json;version=2", ";;"} {
 				for _, method := range []string{"GET", "POST", "OPTIONS", "GET+raw"} {
 					q := hv.Req{Method: method, Path: path, Host: host}
